@@ -38,18 +38,24 @@ Proof. repeat split. Qed.
 Lemma same_but_rdl_trans a b c : same_but_rdl a b -> same_but_rdl b c -> same_but_rdl a c.
 Proof. unfold same_but_rdl. intuition congruence. Qed.
 
+Lemma clear_reqrdl_same x : same_but_rdl (fst (clear_reqrdl x)) (fst x).
+Proof. destruct x as [st cs]. cbn. repeat split. Qed.
+
 Lemma arm_first_byte_same c x : same_but_rdl (fst (arm_first_byte c x)) (fst x).
 Proof.
   unfold arm_first_byte.
   set (y := if l_num (fst x) =? 1 then if sc_readTimeout c >? 0 then set_read (sc_readTimeout c) x else x
-            else if idleTimeout c >? 0 then set_read (idleTimeout c) x else x).
+            else if idleTimeout c >? 0 then set_read (idleTimeout c) x
+                 else if l_reqrdl (fst x) then set_read 0 x else x).
   assert (Hy : same_but_rdl (fst y) (fst x)).
-  { subst y. destruct (l_num (fst x) =? 1); [destruct (sc_readTimeout c >? 0)|destruct (idleTimeout c >? 0)];
+  { subst y. destruct (l_num (fst x) =? 1); [destruct (sc_readTimeout c >? 0)|destruct (idleTimeout c >? 0); [|destruct (l_reqrdl (fst x))]];
       try apply set_read_same; apply same_but_rdl_refl. }
+  assert (Hz : same_but_rdl (fst (clear_reqrdl y)) (fst x)).
+  { eapply same_but_rdl_trans; [apply clear_reqrdl_same|exact Hy]. }
   destruct (sc_readTimeout c >? 0).
-  - eapply same_but_rdl_trans; [apply set_read_same|exact Hy].
-  - destruct ((sc_idleTimeout c >? 0) && (l_num (fst x) >? 1)); [|exact Hy].
-    eapply same_but_rdl_trans; [apply set_read_same|exact Hy].
+  - eapply same_but_rdl_trans; [apply set_read_same|exact Hz].
+  - destruct ((sc_idleTimeout c >? 0) && (l_num (fst x) >? 1)); [|exact Hz].
+    eapply same_but_rdl_trans; [apply set_read_same|exact Hz].
 Qed.
 
 Definition hr_max (c : scfg) (q : lreq) : Z :=
@@ -96,7 +102,7 @@ Theorem lstep_spec c st q : wf_scfg c -> wf_lreq q -> linv c st ->
   (d_dispatched d = true -> d_max d = spec_max c q /\ d_wt d = spec_wt c q).
 Proof.
   intros (Wr & Wi & Ww) (Qr & Qw) I. unfold lstep.
-  set (st1 := mkLstate (l_num st + 1) (l_max st) (l_wt st) (l_prevwt st) (l_close st) true (l_rdl st) (l_wdl st)).
+  set (st1 := mkLstate (l_num st + 1) (l_max st) (l_wt st) (l_prevwt st) (l_close st) true (l_rdl st) (l_wdl st) (l_reqrdl st)).
   pose proof (arm_first_byte_same c (st1, [])) as A. cbn [fst] in A.
   set (x := arm_first_byte c (st1, [])) in *.
   unfold spec_dispatched, spec_status, spec_too_large.
@@ -153,7 +159,7 @@ Lemma lstep_inv c st q : wf_scfg c -> wf_lreq q -> linv c st ->
   d_closed (fst (lstep c st q)) = false -> linv c (snd (lstep c st q)).
 Proof.
   intros (Wr & Wi & Ww) (Qr & Qw) I. unfold lstep.
-  set (st1 := mkLstate (l_num st + 1) (l_max st) (l_wt st) (l_prevwt st) (l_close st) true (l_rdl st) (l_wdl st)).
+  set (st1 := mkLstate (l_num st + 1) (l_max st) (l_wt st) (l_prevwt st) (l_close st) true (l_rdl st) (l_wdl st) (l_reqrdl st)).
   pose proof (arm_first_byte_same c (st1, [])) as A. cbn [fst] in A.
   set (x := arm_first_byte c (st1, [])) in *.
   destruct (q_head_ok q); cbn [negb]; [|cbn; discriminate].
@@ -215,17 +221,17 @@ Qed.
 
 (* ---- the read deadline ---- *)
 
-Definition no_override (c : scfg) (qs : list lreq) : Prop :=
-  Forall (fun q => sc_hasHeaderReceived c = false \/ q_rt q = 0 \/ q_head_ok q = false) qs.
-
 Lemma set_read_rdl d x : l_rdl (fst (set_read d x)) = d.
+Proof. destruct x; reflexivity. Qed.
+
+Lemma clear_reqrdl_rdl x : l_rdl (fst (clear_reqrdl x)) = l_rdl (fst x).
 Proof. destruct x; reflexivity. Qed.
 
 Lemma arm_first_byte_rdl c st cs : 0 <= sc_readTimeout c -> 0 <= sc_idleTimeout c -> 1 <= l_num st ->
   l_rdl (fst (arm_first_byte c (st, cs))) =
     if sc_readTimeout c >? 0 then sc_readTimeout c
     else if sc_idleTimeout c >? 0 then (if l_num st >? 1 then 0 else l_rdl st)
-    else l_rdl st.
+    else if (l_num st >? 1) && l_reqrdl st then 0 else l_rdl st.
 Proof.
   intros Wr Wi N1. unfold arm_first_byte. cbn [fst].
   destruct (sc_readTimeout c >? 0) eqn:R.
@@ -235,8 +241,21 @@ Proof.
     rewrite IT. destruct (sc_idleTimeout c >? 0) eqn:Ii; cbn [andb].
     + destruct (l_num st >? 1) eqn:N.
       * apply set_read_rdl.
-      * replace (l_num st =? 1) with true by lia. reflexivity.
-    + destruct (l_num st =? 1); reflexivity.
+      * replace (l_num st =? 1) with true by lia. rewrite clear_reqrdl_rdl. reflexivity.
+    + rewrite clear_reqrdl_rdl. destruct (l_num st =? 1) eqn:N1'.
+      * replace (l_num st >? 1) with false by lia. reflexivity.
+      * replace (l_num st >? 1) with true by lia. cbn [andb].
+        destruct (l_reqrdl st); [apply set_read_rdl|reflexivity].
+Qed.
+
+Lemma arm_first_byte_flag c x : l_reqrdl (fst (arm_first_byte c x)) = false.
+Proof.
+  unfold arm_first_byte.
+  match goal with |- context [clear_reqrdl ?y] => set (z := clear_reqrdl y) end.
+  assert (Hz : l_reqrdl (fst z) = false) by (subst z; match goal with |- context [clear_reqrdl ?y] => destruct y end; reflexivity).
+  assert (SR : forall d y, l_reqrdl (fst (set_read d y)) = l_reqrdl (fst y)) by (intros d [s0 c0]; reflexivity).
+  destruct (sc_readTimeout c >? 0); [rewrite SR; exact Hz|].
+  destruct ((sc_idleTimeout c >? 0) && (l_num (fst x) >? 1)); [rewrite SR; exact Hz|exact Hz].
 Qed.
 
 Lemma header_received_rdl c q x :
@@ -246,80 +265,89 @@ Proof.
   destruct (q_rt q >? 0); destruct x as [s cs]; reflexivity.
 Qed.
 
-(* the read deadline left armed by an iteration *)
-Lemma lstep_rdl_after c st q : wf_scfg c ->
-  l_rdl (snd (lstep c st q)) =
-    if q_head_ok q && sc_hasHeaderReceived c && (q_rt q >? 0) then q_rt q
-    else l_rdl (fst (arm_first_byte c (mkLstate (l_num st + 1) (l_max st) (l_wt st) (l_prevwt st) (l_close st) true (l_rdl st) (l_wdl st), []))).
+Lemma header_received_flag c q x :
+  l_reqrdl (fst (header_received c q x)) = l_reqrdl (fst x) || (sc_hasHeaderReceived c && (q_rt q >? 0)).
 Proof.
-  intros Wc. unfold lstep.
-  set (x := arm_first_byte c _).
-  destruct (q_head_ok q); cbn [negb andb]; [|reflexivity].
+  unfold header_received. destruct (sc_hasHeaderReceived c); [|cbn; rewrite orb_false_r; reflexivity]. cbn [andb].
+  destruct (q_rt q >? 0); destruct x as [s cs]; cbn; rewrite ?orb_false_r; reflexivity.
+Qed.
+
+Definition st1_of (st : lstate) : lstate :=
+  mkLstate (l_num st + 1) (l_max st) (l_wt st) (l_prevwt st) (l_close st) true (l_rdl st) (l_wdl st) (l_reqrdl st).
+
+(* what an iteration leaves behind: the armed read deadline, the flag, the request count *)
+Lemma lstep_after c st q :
+  let x := arm_first_byte c (st1_of st, []) in
+  let s' := snd (lstep c st q) in
+  l_num s' = l_num st + 1 /\
+  l_rdl s' = (if q_head_ok q && sc_hasHeaderReceived c && (q_rt q >? 0) then q_rt q else l_rdl (fst x)) /\
+  l_reqrdl s' = (q_head_ok q && sc_hasHeaderReceived c && (q_rt q >? 0)).
+Proof.
+  cbn zeta. unfold lstep. fold (st1_of st).
+  pose proof (arm_first_byte_same c (st1_of st, [])) as A. cbn [fst] in A. destruct A as (An & _). cbn in An.
+  pose proof (arm_first_byte_flag c (st1_of st, [])) as Fl.
+  set (x := arm_first_byte c (st1_of st, [])) in *.
+  destruct (q_head_ok q); cbn [negb andb]; [|cbn; auto].
   pose proof (header_received_rdl c q x) as R.
-  destruct (header_received c q x) as [s2 cs2]. cbn [fst] in R.
-  assert (AW : forall y, l_rdl (fst (arm_write y)) = l_rdl (fst y)).
-  { intros [s cs]. unfold arm_write. cbn [fst]. destruct (l_wt s >? 0); [reflexivity|]. destruct (l_prevwt s >? 0); reflexivity. }
-  destruct (negb (q_expect q) && (negb (sc_stream c) && (q_body q >? l_max s2))); [exact R|].
-  destruct (lverdict c q) as [v|].
-  - match goal with |- context [arm_write ?y] => pose proof (AW y) as W; destruct (arm_write y) as [s5 cs5] end.
-    cbn in *. rewrite W. exact R.
-  - destruct (q_expect q && (negb (sc_stream c) && (q_body q >? l_max s2))); [exact R|].
-    match goal with |- context [arm_write ?y] => pose proof (AW y) as W; destruct (arm_write y) as [s5 cs5] end.
-    cbn in *. rewrite W. exact R.
-Qed.
-
-Lemma lstep_num c st q : l_num (snd (lstep c st q)) = l_num st + 1.
-Proof.
-  unfold lstep.
-  set (st1 := mkLstate (l_num st + 1) (l_max st) (l_wt st) (l_prevwt st) (l_close st) true (l_rdl st) (l_wdl st)).
-  pose proof (arm_first_byte_same c (st1, [])) as A. cbn [fst] in A. destruct A as (An & _). cbn in An.
-  set (x := arm_first_byte c (st1, [])) in *.
-  destruct (q_head_ok q); cbn [negb]; [|exact An].
+  pose proof (header_received_flag c q x) as Fh. rewrite Fl in Fh. cbn [orb] in Fh.
   pose proof (header_received_fields c q x) as H. cbn zeta in H.
-  destruct (header_received c q x) as [s2 cs2]. cbn [fst] in H. destruct H as (Hn & _).
-  assert (AW : forall y, l_num (fst (arm_write y)) = l_num (fst y)).
-  { intros [s cs]. unfold arm_write. cbn [fst]. destruct (l_wt s >? 0); [reflexivity|]. destruct (l_prevwt s >? 0); reflexivity. }
-  destruct (negb (q_expect q) && (negb (sc_stream c) && (q_body q >? l_max s2))); [cbn; lia|].
+  destruct (header_received c q x) as [s2 cs2]. cbn [fst] in R, Fh, H. destruct H as (Hn & _).
+  assert (AW : forall y, l_rdl (fst (arm_write y)) = l_rdl (fst y) /\ l_reqrdl (fst (arm_write y)) = l_reqrdl (fst y)
+                         /\ l_num (fst (arm_write y)) = l_num (fst y)).
+  { intros [s cs]. unfold arm_write. cbn [fst]. destruct (l_wt s >? 0); [cbn; auto|]. destruct (l_prevwt s >? 0); cbn; auto. }
+  destruct (negb (q_expect q) && (negb (sc_stream c) && (q_body q >? l_max s2))); [cbn; repeat split; [lia|exact R|exact Fh]|].
   destruct (lverdict c q) as [v|].
-  - match goal with |- context [arm_write ?y] => pose proof (AW y) as W; destruct (arm_write y) as [s5 cs5] end.
-    cbn in *. lia.
-  - destruct (q_expect q && (negb (sc_stream c) && (q_body q >? l_max s2))); [cbn; lia|].
-    match goal with |- context [arm_write ?y] => pose proof (AW y) as W; destruct (arm_write y) as [s5 cs5] end.
-    cbn in *. lia.
+  - match goal with |- context [arm_write ?y] => pose proof (AW y) as (W1 & W2 & W3); destruct (arm_write y) as [s5 cs5] end.
+    cbn in *. rewrite W1, W2, W3. repeat split; [lia|exact R|exact Fh].
+  - destruct (q_expect q && (negb (sc_stream c) && (q_body q >? l_max s2))); [cbn; repeat split; [lia|exact R|exact Fh]|].
+    match goal with |- context [arm_write ?y] => pose proof (AW y) as (W1 & W2 & W3); destruct (arm_write y) as [s5 cs5] end.
+    cbn in *. rewrite W1, W2, W3. repeat split; [lia|exact R|exact Fh].
 Qed.
 
-Lemma lafter_num c : forall qs st st', lafter c st qs = Some st' -> l_num st' = l_num st + Z.of_nat (length qs).
+(* invariant of the armed read deadline at the top of the loop *)
+Definition rinv (c : scfg) (st : lstate) : Prop :=
+  0 <= l_num st /\ (l_num st = 0 -> l_reqrdl st = false /\ l_rdl st = 0) /\
+  (sc_readTimeout c = 0 -> sc_idleTimeout c = 0 -> l_reqrdl st = false -> l_rdl st = 0).
+
+Lemma linit_rinv c : rinv c (linit c).
+Proof. unfold rinv. cbn. repeat split; auto; lia. Qed.
+
+(* the deadline under which the head of the next request is read, once its first byte arrived *)
+Lemma head_deadline c st : wf_scfg c -> rinv c st ->
+  l_rdl (fst (arm_first_byte c (st1_of st, []))) = sc_readTimeout c.
 Proof.
-  induction qs as [|q r IH]; intros st st' H; cbn [lafter] in H.
-  - injection H as <-. cbn. lia.
-  - destruct (d_closed (fst (lstep c st q))); [discriminate|].
-    apply IH in H. rewrite H, lstep_num. cbn [length]. lia.
+  intros (Wr & Wi & _) (N & Z0 & J).
+  rewrite (arm_first_byte_rdl c (st1_of st) [] Wr Wi ltac:(cbn; lia)). cbn [st1_of l_num l_rdl l_reqrdl].
+  destruct (sc_readTimeout c >? 0) eqn:R; [reflexivity|].
+  assert (R0 : sc_readTimeout c = 0) by lia. rewrite R0.
+  destruct (sc_idleTimeout c >? 0) eqn:Ii.
+  - destruct (l_num st + 1 >? 1) eqn:E; [reflexivity|]. apply Z0. lia.
+  - destruct (l_num st + 1 >? 1) eqn:E; cbn [andb].
+    + destruct (l_reqrdl st) eqn:F; [reflexivity|]. apply J; [assumption|lia|reflexivity].
+    + apply Z0. lia.
 Qed.
 
-(* without per-request read deadlines and without a server read timeout nothing is ever armed *)
-Lemma lafter_rdl_zero c : wf_scfg c -> sc_readTimeout c = 0 -> forall qs st st',
-  0 <= l_num st -> no_override c qs -> l_rdl st = 0 -> lafter c st qs = Some st' -> l_rdl st' = 0.
+Lemma lstep_rinv c st q : wf_scfg c -> rinv c st -> rinv c (snd (lstep c st q)).
 Proof.
-  intros Wc R0 qs; induction qs as [|q r IH]; intros st st' N0 No Z H; cbn [lafter] in H.
-  - injection H as <-. exact Z.
+  intros Wc I. pose proof (head_deadline c st Wc I) as Hd.
+  pose proof (lstep_after c st q) as (Hn & Hr & Hf). cbn zeta in *.
+  destruct I as (N & Z0 & J). unfold rinv. rewrite Hn, Hr, Hf, Hd.
+  split; [lia|]. split; [intros; lia|].
+  intros R0 I0 F. rewrite F. exact R0.
+Qed.
+
+Lemma lafter_rinv c : wf_scfg c -> forall qs st st', rinv c st -> lafter c st qs = Some st' -> rinv c st'.
+Proof.
+  intros Wc qs; induction qs as [|q r IH]; intros st st' I H; cbn [lafter] in H.
+  - injection H as <-. exact I.
   - destruct (d_closed (fst (lstep c st q))); [discriminate|].
-    inversion No as [|? ? Hq Hr]; subst.
-    assert (N1 : 0 <= l_num (snd (lstep c st q))) by (rewrite lstep_num; lia).
-    apply (IH _ _ N1 Hr) in H; [exact H|].
-    rewrite (lstep_rdl_after c st q Wc).
-    assert (G : q_head_ok q && sc_hasHeaderReceived c && (q_rt q >? 0) = false).
-    { destruct Hq as [Hq|[Hq|Hq]]; rewrite Hq; cbn; rewrite ?andb_false_r; reflexivity. }
-    rewrite G. destruct Wc as (Wr & Wi & _). match goal with |- context [arm_first_byte c (?s1, [])] =>
-      assert (N1' : 1 <= l_num s1) by (cbn; lia); rewrite (arm_first_byte_rdl c s1 [] Wr Wi N1') end. cbn [l_num l_rdl].
-    rewrite R0. cbn. destruct (sc_idleTimeout c >? 0); [destruct (l_num st + 1 >? 1)|]; auto.
+    exact (IH _ _ (lstep_rinv c st q Wc I) H).
 Qed.
 
 Lemma lstep_rdl_body c st q : q_head_ok q = true ->
-  d_rdl_body (fst (lstep c st q)) =
-  l_rdl (fst (header_received c q (arm_first_byte c
-     (mkLstate (l_num st + 1) (l_max st) (l_wt st) (l_prevwt st) (l_close st) true (l_rdl st) (l_wdl st), [])))).
+  d_rdl_body (fst (lstep c st q)) = l_rdl (fst (header_received c q (arm_first_byte c (st1_of st, [])))).
 Proof.
-  intros Hh. unfold lstep. rewrite Hh. cbn [negb].
+  intros Hh. unfold lstep. fold (st1_of st). rewrite Hh. cbn [negb].
   set (x := arm_first_byte c _).
   destruct (header_received c q x) as [s2 cs2]. cbn [fst].
   destruct (negb (q_expect q) && (negb (sc_stream c) && (q_body q >? l_max s2))); [reflexivity|].
@@ -329,38 +357,22 @@ Proof.
     match goal with |- context [arm_write ?y] => destruct (arm_write y) as [s5 cs5] end. reflexivity.
 Qed.
 
-(* the read deadline under which a request's body is read is the one the configuration and that
-   request prescribe, PROVIDED the server has a read or idle timeout of its own or no earlier request
-   of the connection got a per-request read timeout from HeaderReceived *)
+(* after ANY history, the read deadline under which a request's body is read is the one the
+   configuration and that request prescribe *)
 Theorem read_deadline_independent c qs q st :
   wf_scfg c -> lafter c (linit c) qs = Some st -> q_head_ok q = true ->
-  (0 < sc_readTimeout c \/ 0 < sc_idleTimeout c \/ no_override c qs) ->
   d_rdl_body (fst (lstep c st q)) = spec_rdl_body c q.
 Proof.
-  intros Wc H Hh G. rewrite (lstep_rdl_body c st q Hh), header_received_rdl.
+  intros Wc H Hh. rewrite (lstep_rdl_body c st q Hh), header_received_rdl.
   unfold spec_rdl_body. destruct (sc_hasHeaderReceived c && (q_rt q >? 0)); [reflexivity|].
-  pose proof (lafter_num c qs _ _ H) as N. cbn in N.
-  destruct Wc as (Wr & Wi & Ww). match goal with |- context [arm_first_byte c (?s1, [])] =>
-      assert (N1' : 1 <= l_num s1) by (cbn; lia); rewrite (arm_first_byte_rdl c s1 [] Wr Wi N1') end. cbn [l_num l_rdl].
-  destruct (sc_readTimeout c >? 0) eqn:R; [reflexivity|].
-  assert (R0 : sc_readTimeout c = 0) by lia.
-  destruct (sc_idleTimeout c >? 0) eqn:Ii.
-  - destruct qs as [|q0 r].
-    + cbn in H. injection H as <-. cbn. destruct (0 + 1 >? 1); lia.
-    + cbn [length] in N. replace (l_num st + 1 >? 1) with true by lia. lia.
-  - rewrite R0. destruct G as [G|[G|G]]; try lia.
-    assert (L0 : 0 <= l_num (linit c)) by (cbn; lia).
-    exact (lafter_rdl_zero c (conj Wr (conj Wi Ww)) R0 qs _ _ L0 G eq_refl H).
+  apply head_deadline; [assumption|]. exact (lafter_rinv c Wc qs _ _ (linit_rinv c) H).
 Qed.
 
+(* non-vacuity: a 5 s per-request deadline is gone for the next request *)
 Definition wit_scfg : scfg := mkScfg 0 0 0 0 true false false false 0 false.
 Definition wit_q1 : lreq := mkLreq true 5 0 0 0 false false false 0 false HNone.
 Definition wit_q2 : lreq := mkLreq true 0 0 0 0 false false false 0 false HNone.
-
-Theorem read_deadline_independent_refuted :
-  exists c qs q st, wf_scfg c /\ Forall wf_lreq (q :: qs) /\ lafter c (linit c) qs = Some st /\ q_head_ok q = true /\ d_rdl_body (fst (lstep c st q)) <> spec_rdl_body c q.
-Proof.
-  exists wit_scfg, [wit_q1], wit_q2. eexists.
-  split; [unfold wf_scfg; cbn; lia|]. split; [repeat constructor; cbn; lia|].
-  split; [vm_compute; reflexivity|]. split; [reflexivity|]. vm_compute. discriminate.
-Qed.
+Lemma override_is_cleared :
+  map (fun d => (d_rdl_body d, d_calls d)) (fst (lrun wit_scfg (linit wit_scfg) [wit_q1; wit_q2]))
+  = [(5, [DRead 5]); (0, [DRead 0])].
+Proof. vm_compute. reflexivity. Qed.
